@@ -189,6 +189,21 @@ CHECKS["C07"] = dict(
          "functions returned by value are a listed known finding (C07-F1).",
     design_ref="5/C07", engine="GIRMachine")
 
+CHECKS["C08"] = dict(
+    category="model_checking",
+    technique="GIRMachine (executable TLA+ semantics of GIR) run by TLC on the GIR of value programs, recording every definition as an event with a two-level snapshot of the value; the Covers predicate of the specification judges every event of every behaviour against the abstract states of the same lian run (s2space_p3 joined with stmt_status_p3, read by lian's newest-copy rule)",
+    text="Value programs: an int or string constant travels through up to two of 42 connecting constructs (arithmetic incl. negative and zero results, "
+         "concatenation, repetition, digit strings, objects and fields, overwrites, other field / other object, aliases, lists, calls with one and two "
+         "parameters, two call sites, parameter writes and reads, returned objects, callees with two arms / two exits writing through aliases, branches on "
+         "an unknown condition, a receiver that may be one of two objects, nested objects, one-iteration loops), plus 13 hostile string literals (quotes, "
+         "backslashes, operator characters, digit strings) through concatenation, fields and calls. Each behaviour of the machine (branches on choice() are "
+         "explored) yields its definition events; an event is covered by a regular state with the same value, by a state of the object's allocation site "
+         "whose fields and elements cover the snapshot recursively, or by an unknown state.",
+    note="Python frontend, one entry; allocation site = statement of the first state carrying a state id; a symbol's states are read with lian's own rule (newest copy "
+         "of each state id leaving the statement); None is not judged; array elements position-insensitive. Four open findings (may-alias receiver, nested object via alias, "
+         "callee alias after a join, loop-carried values) and two repaired defects of the constant folder are in known_findings.json.",
+    design_ref="5/C08", engine="GIRMachine")
+
 NOT_YET = {
 }
 
@@ -199,8 +214,8 @@ ENGINES = [
          serves_properties=["C11"], kind_free_text="TLA+ rule-match predicate and taint closure, TLC as fixpoint engine over recorded runs"),
     dict(name="EntryPoints", path="specs/EntryPoints.tla harness/c20.py harness/c20_post.py",
          serves_properties=["C20"], kind_free_text="TLA+ contract + operational model + trace validation of runs, TLC"),
-    dict(name="GIRMachine", path="specs/GIRMachine.tla harness/c01.py harness/c02.py harness/c07.py harness/c10.py harness/pygen.py harness/coregen.py harness/callgen.py harness/taintgen.py harness/schedtrace.py harness/girjson.py harness/lianrun.py",
-         serves_properties=["C01", "C02", "C07", "C10"], kind_free_text="executable TLA+ operational semantics of GIR, TLC as interpreter"),
+    dict(name="GIRMachine", path="specs/GIRMachine.tla harness/c01.py harness/c02.py harness/c07.py harness/c08.py harness/c10.py harness/valgen.py harness/pygen.py harness/coregen.py harness/callgen.py harness/taintgen.py harness/schedtrace.py harness/girjson.py harness/lianrun.py",
+         serves_properties=["C01", "C02", "C07", "C08", "C10"], kind_free_text="executable TLA+ operational semantics of GIR, TLC as interpreter"),
     dict(name="Pipeline", path="specs/Pipeline.tla harness/c14.py harness/c14_digest.py",
          serves_properties=["C14"], kind_free_text="deterministic TLA+ spec as trace validator + differential runs"),
     dict(name="GIRControl", path="specs/GIRControl.tla specs/ReachingDefs.tla harness/c04.py harness/c06.py harness/skeleton.py harness/girjson.py harness/lianrun.py",
